@@ -36,11 +36,13 @@ type envT struct {
 	Blocks   []json.RawMessage `json:"blocks"`   // [cdag, [links]]: the truth about the cluster-DAG
 	Fail     []string          `json:"fail"`     // CIDs whose BlockGet fails at the moment
 	LogFail  [][2]string       `json:"logfail"`  // <<kind, cid>> consensus operations failing at the moment
+	GetFail  []string          `json:"getfail"`  // CIDs whose State.Get fails (C10's fault dimension; always empty here)
 	Deferred bool              `json:"deferred"` // the consensus component acknowledges before it commits
 }
 
 type callT struct {
 	Op      string            `json:"op"`
+	Via     string            `json:"via,omitempty"` // "go" (default): exported method; "rpc": the peer's RPC endpoint
 	Cid     string            `json:"cid,omitempty"`
 	O       *rig.AbsOpts      `json:"o,omitempty"`
 	P       *rig.Entry        `json:"p,omitempty"`
@@ -231,6 +233,27 @@ func (w *world) exec(c *callT) (*api.Pin, error) {
 	defer cancel()
 	N := w.proj.N
 	cl := w.r.Cluster
+	if c.Via == "rpc" {
+		// exactly what the REST API does: a call to the local peer's RPC server
+		var out api.Pin
+		var err error
+		switch c.Op {
+		case "pin":
+			err = w.r.RPC().CallContext(ctx, "", "Cluster", "Pin", api.PinWithOpts(N.Cid(c.Cid), w.proj.Options(*c.O)), &out)
+		case "unpin":
+			err = w.r.RPC().CallContext(ctx, "", "Cluster", "Unpin", api.PinCid(N.Cid(c.Cid)), &out)
+		case "pinpath":
+			err = w.r.RPC().CallContext(ctx, "", "Cluster", "PinPath", &api.PinPath{PinOptions: w.proj.Options(*c.O), Path: c.Path}, &out)
+		case "unpinpath":
+			err = w.r.RPC().CallContext(ctx, "", "Cluster", "UnpinPath", &api.PinPath{Path: c.Path}, &out)
+		default:
+			return nil, fmt.Errorf("op %q has no RPC endpoint", c.Op)
+		}
+		if err != nil {
+			return nil, err
+		}
+		return &out, nil
+	}
 	switch c.Op {
 	case "pin":
 		return cl.Pin(ctx, N.Cid(c.Cid), w.proj.Options(*c.O))
@@ -313,6 +336,7 @@ func TestDriver(t *testing.T) {
 		if env.LogFail == nil {
 			env.LogFail = [][2]string{}
 		}
+		env.GetFail = []string{}
 		win := []winT{}
 		// flush commits what the deferred consensus has acknowledged and records (committed before, window, after)
 		flush := func(step int) bool {
